@@ -43,6 +43,8 @@ def index_ok(leaf, conds, ts, buf, ex, facts):
                 return "R-range"
             if b["array"] == ("self", buf):
                 return "R-iter"
+            if b["array"] is None and b["start"] == cu(0) and buffer_of_len(b["end"]) == buf:
+                return "R-range-len"  # 0 <= i < len(buf): the loop test itself
     if isinstance(leaf, tuple) and leaf[0] == "ucall" and leaf[1] in ts.index_fns and ts.index_fns[leaf[1]] == buf:
         return "R-enum"
     if isinstance(leaf, tuple) and leaf[0] == "pick" and leaf[1] == cu(0):
@@ -103,6 +105,10 @@ def discharge(site, ts, ex):
             if 0 <= v < 2 ** 63:
                 return "R-const-arith", ""
             return None, "constant arithmetic %s %s %s overflows" % (x, site["op"], y)
+        if kind == "Overflow" and site.get("op") == "Add" and isinstance(ops.get("a"), tuple) and ops["a"][0] == "ivar" and ops.get("b") == cu(1):
+            bnd = ex.ivar_bounds.get(ops["a"])
+            if bnd is not None:
+                return "R-ivar-inc (i < bound inside the loop, so i + 1 <= bound does not overflow)", ""
         if kind == "Overflow" and site.get("op") == "Add":
             a, b = ops.get("a"), ops.get("b")
             if b != cu(1) or not (isinstance(a, tuple) and a[0] == "pre" and a[1].startswith("self.")):
